@@ -77,6 +77,7 @@ class Recorder(object):
         self.undec = collections.Counter()
         self.undec_items = []
         self.samples = []
+        self.auto_samples = []     # the first few evaluated cases, used when the module records no samples itself
         self.maxima = {}
         self.notes = {}
         self.t0 = time.time()
@@ -85,6 +86,8 @@ class Recorder(object):
     def case(self, ident, nontrivial=True, cls=None):
         """Count one evaluated case. ``ident`` canonically identifies the input (hashable/repr-able)."""
         self.evals += 1
+        if len(self.auto_samples) < SAMPLE_CAP and nontrivial:
+            self.auto_samples.append({'case': jsonable(ident), 'class': cls})
         if nontrivial:
             self.nontrivial.add(h64(ident))
         if cls is not None:
@@ -142,7 +145,7 @@ class Recorder(object):
             'shard': self.shard, 'evals': self.evals,
             'classes': dict(self.classes), 'events': dict(self.events), 'anchors': dict(self.anchors),
             'viol': self.viol, 'undec': dict(self.undec), 'undec_items': self.undec_items,
-            'samples': self.samples, 'maxima': {k: list(v) for k, v in self.maxima.items()},
+            'samples': self.samples or self.auto_samples, 'maxima': {k: list(v) for k, v in self.maxima.items()},
             'notes': self.notes, 'wall_s': time.time() - self.t0,
         }
 
